@@ -4,6 +4,7 @@
 pub mod c03;
 pub mod c04;
 pub mod c05;
+pub mod c06;
 pub mod c07;
 pub mod c08;
 pub mod c10;
@@ -32,6 +33,7 @@ pub fn scenario_for(pid: &str) -> Option<&'static dyn Scenario> {
         "C03" => &c03::C03,
         "C04" => &c04::C04,
         "C05" => &c05::C05,
+        "C06" => &c06::C06,
         "C07" => &c07::C07,
         "C08" => &c08::C08,
         "C10" => &c10::C10,
